@@ -29,7 +29,7 @@ RULE = (
     "difference; distinct = (task, policy, range kind, removed?, tp?, fp?, fn?, tn?, n_frames class)"
 )
 ASSUMPTIONS = ["objects and ego have yaw-only rotations", "no decision within 1e-6 of a boundary in the ego-frame description (otherwise skipped)"]
-DECIDING = ["C07.interpolated_pairs_compared", "C07.pairs_compared", "C07.frames_compared", "C07.pairs_with_removed_object", "C07.pairs_with_tp", "C07.tracking_pairs", "C07.scene_compared", "C07.no_ego_pose_runs_compared", "C07.follower_pairs_compared"]
+DECIDING = ["C07.interpolated_pairs_compared", "C07.pairs_compared", "C07.frames_compared", "C07.pairs_with_removed_object", "C07.pairs_with_tp", "C07.tracking_pairs", "C07.scene_compared", "C07.no_ego_pose_runs_compared", "C07.follower_pairs_compared", "C07.twin_pairs_compared"]
 JOBS = {"quick": 4, "thorough": 14}
 TOL = 1e-6
 
@@ -38,6 +38,7 @@ def run(ctx: Ctx) -> None:
     n = 160 if ctx.quick else 20000
     interpolated_pairs(ctx, 50 if ctx.quick else 8000)
     follower_pairs(ctx, 24 if ctx.quick else 3000)
+    twin_pairs(ctx, 16 if ctx.quick else 2000)
     for idx in ctx.indices("pairs", n):
         r = ctx.rng("pairs", idx)
         task = ["detection", "tracking", "detection", "fp_validation"][idx % 4]
@@ -173,6 +174,50 @@ def follower_pairs(ctx: Ctx, n: int) -> None:
                         ctx.violation(f"C07/ego_and_map_runs_differ:followers:{part}", dict(scn.info, frame=k, first_difference=d[:400]), tap="comparator")
                         break
             ctx.case(("followers", ring, nF), nontrivial=True)
+
+
+def twin_pairs(ctx: Ctx, n: int) -> None:
+    """Map coordinates of the order of 1e5 m (MGRS-style local maps) and ground-truth objects a few decimetres apart with
+    the same label, heading and height (pedestrians side by side), of which one is detected and its neighbour missed: in the
+    map rendering the neighbours differ in the 7th significant digit only."""
+    for idx in ctx.indices("twins", n):
+        r = ctx.rng("twins", idx)
+        ego_pos = (r.choice([-1, 1]) * r.uniform(3e4, 1e5), r.choice([-1, 1]) * r.uniform(3e4, 1e5), r.uniform(-2, 2))
+        ego_yaw = O.rand_yaw(r)
+        t0 = 1_600_000_000_000_000 + r.randint(0, 10**9)
+        fr = Frame(t=t0, ego_pos=ego_pos, ego_yaw=ego_yaw)
+        n_groups = r.randint(1, 3)
+        for gk in range(n_groups):
+            x, y, yaw = r.uniform(-25, 25), r.uniform(-25, 25), O.rand_yaw(r)
+            cat = r.choice(["pedestrian", "car", "bicycle"])
+            size = (0.6, 0.6, 1.7) if cat == "pedestrian" else (1.9, 4.5, 1.6) if cat == "car" else (0.6, 1.8, 1.5)
+            gap = r.uniform(0.25, 0.45) if cat == "pedestrian" else r.uniform(0.3, 0.8)
+            ang = r.uniform(-math.pi, math.pi)
+            n_twins = r.randint(2, 3)
+            detected = r.randrange(n_twins)
+            for j in range(n_twins):
+                bx, by = x + j * gap * math.cos(ang), y + j * gap * math.sin(ang)
+                fr.gts.append(dict(key=f"g{gk}_{j}", category=cat, canon=cat, box=(bx, by, 0.0, yaw, *size), npts=30, vis="full", attrs=[]))
+                if j == detected:
+                    fr.ests.append(dict(key=f"e{gk}", name=cat, box=(bx + r.gauss(0, 0.02), by + r.gauss(0, 0.02), 0.0, yaw, *size), score=round(0.9 - 0.1 * gk, 3), uuid=f"t{gk}"))
+        cfg = {"evaluation_task": "detection", "target_labels": ["car", "pedestrian", "bicycle"], "label_prefix": "autoware", "merge_similar_labels": False, "matching_label_policy": "DEFAULT", "min_point_numbers": [0, 0, 0], "max_x_position": 60.0, "max_y_position": 60.0, "center_distance_thresholds": [[0.1, 0.1, 0.1]], "plane_distance_thresholds": [[0.12, 0.12, 0.12]], "iou_2d_thresholds": [[0.8, 0.8, 0.8]], "iou_3d_thresholds": [[0.8, 0.8, 0.8]]}
+        crit = {"target_labels": ["car", "pedestrian", "bicycle"], "max_x_position_list": [50.0] * 3, "max_y_position_list": [50.0] * 3}
+        scn = Scenario(task="detection", frames=[fr], cfg=cfg, critical=[crit], passfail=[{"target_labels": ["car", "pedestrian", "bicycle"], "matching_threshold_list": [0.12] * 3}], info=dict(task="detection", n_frames=1, groups=n_groups, ego=[round(v, 1) for v in ego_pos]))
+        ctx.begin_case("twins", idx, **scn.info)
+        if compare.scenario_margin(scn) < BOUNDARY:
+            ctx.count("C07.skipped_boundary")
+            continue
+        with ctx.case_guard("twins"):
+            with D.DatasetDir(scn.scene_spec()) as ds:
+                run_e, run_m = Run(scn, "base_link", ds), Run(scn, "map", ds)
+                a, b = compare.frame_digest(run_e.add(0)), compare.frame_digest(run_m.add(0))
+            ctx.count("C07.twin_pairs_compared")
+            for part in ("results", "critical_gt", "tp", "fp", "fn", "tn", "metrics", "ranges"):
+                d = compare.diff(a[part], b[part], TOL)
+                if d is not None:
+                    ctx.violation(f"C07/ego_and_map_runs_differ:twins:{part}", dict(scn.info, first_difference=d[:400]), tap="comparator")
+                    break
+            ctx.case(("twins", n_groups, len(a["fn"]) > 0), nontrivial=len(a["fn"]) > 0 and len(a["tp"]) > 0)
 
 
 def interpolated_pairs(ctx: Ctx, n: int) -> None:
